@@ -26,3 +26,26 @@ def runDriver (handlers : List (List String → Option String)) : IO Unit := do
   hout.flush
 
 end Pyoda
+
+namespace Pyoda
+
+/-- stateful variant: `step state tokens = some (state', reply)`; `none` = unknown op -/
+partial def driverLoopS {σ} (step : σ → List String → Option (σ × String)) (st : σ) (hin hout : IO.FS.Stream) : IO Unit := do
+  let line ← hin.getLine
+  if line.isEmpty then return ()
+  let l := String.ofList (line.toList.filter (fun c => c != '\n' && c != '\r'))
+  let toks := (l.splitOn " ").filter (· ≠ "")
+  match toks with
+  | [] => hout.putStrLn "?empty"; driverLoopS step st hin hout
+  | _ =>
+    match step st toks with
+    | some (st', r) => hout.putStrLn r; driverLoopS step st' hin hout
+    | none => hout.putStrLn "?bad-op"; driverLoopS step st hin hout
+
+def runDriverS {σ} (init : σ) (step : σ → List String → Option (σ × String)) : IO Unit := do
+  let hin ← IO.getStdin
+  let hout ← IO.getStdout
+  driverLoopS step init hin hout
+  hout.flush
+
+end Pyoda
